@@ -44,6 +44,7 @@ def main(tier):
     for a in adis[:5]:
         chk.add_failure(a["input"] + "  [negated a second time]", {"what": "negate answers differently the second time", **a}, None)
     kinds = set()
+    objs = objs + [(d, th()) for d, th in pool.oracle_only_thunks()]
     # the property on the real code
     values = pool.PROBE_VALUES + cases.coll_values()[:40] + cases.coll_values()[-5:]
     checked = 0
@@ -56,7 +57,7 @@ def main(tier):
         kinds.add(type(p).__name__)
         if type(q).__name__ != "NotPredicate" or type(p).__name__ == "NotPredicate":
             chk.nontrivial.add(d)
-        for x in values + pool.neighbours_of(p):
+        for x in values + pool.neighbours_of(p) + pool.text_forms_of(p):
             try:
                 a = p(x)
             except Exception:  # noqa: BLE001  p undefined at x
